@@ -1,6 +1,7 @@
 """C03 Generated pack/unpack code is equivalent to field-by-field interpretation (bisturi/codegen.py)."""
 import os, copy, itertools
 from common import *
+import json
 import decl, gen, pktcases, pktprops
 
 PID = 'C03'
@@ -138,6 +139,42 @@ def run(tier, seed, rng):
                                          classes_a=pktprops.class_source(groups, fam[0]), classes_b=pktprops.class_source(groups, other),
                                          case={k: (v.hex() if isinstance(v, bytes) else v) for k, v in a.items() if k in ('kind', 'c', 'raw', 'offset', 'value')},
                                          observed_a=oa, observed_b=ob))
+    # ---- user callables see the same keyword arguments under every option combination (they may read the position of the
+    # innermost packet, the root packet, the raw string ...): classes outside the modelled expression language, every
+    # combination against the all-generic one
+    all_combos = list(itertools.product((True, False), repeat=4)) if tier != 'quick' else combos + [(True, True, False, False), (True, True, True, False)]
+    src, names = "", []
+    for ci, (gp, gu, vec, ann) in enumerate(all_combos):
+        conf = dict(generate_for_pack=gp, generate_for_unpack=gu, vectorize=vec, annotate=ann)
+        src += (f"class In{ci}(Packet):\n    __bisturi__ = {conf!r}\n    n = Int(1)\n"
+                f"    body = Data(lambda pkt, raw=b'', offset=0, **k: pkt.n - (offset - k['innermost-pkt-pos']))\n"
+                f"    more = Int(1).repeated(count=lambda pkt, raw=b'', offset=0, **k: (k['innermost-pkt-pos'] % 3))\n"
+                f"class Out{ci}(Packet):\n    __bisturi__ = {conf!r}\n    pad = Data(2)\n    inner = Ref(In{ci})\n    tail = Int(1).aligned(4)\n"
+                f"class Plain{ci}(Packet):\n    __bisturi__ = {conf!r}\n    pad = Data(1)\n    inner = Ref(In{ci})\n    k = Int(2)\n"
+                f"class Rt{ci}(Packet):\n    __bisturi__ = {conf!r}\n    a = Int(1)\n"
+                f"    b = Data(lambda pkt, raw=b'', offset=0, **k: k['root'].a if 'root' in k else 99)\n")
+    inputs = [bytes([5, 65, 66, 67, 68, 69, 70, 71, 72, 73, 74, 75]), bytes([3, 1, 2, 3, 4, 5, 6, 7, 8]), bytes([9, 9, 4, 80, 81, 82, 83, 84, 85, 86, 87, 88]),
+              bytes([2, 7, 7, 7, 7, 7, 7]), bytes([1]), b'']
+    zcases = [dict(cls=f"{k}{ci}", op='roundtrip', raw=raw.hex(), offset=off)
+              for ci in range(len(all_combos)) for k in ('In', 'Out', 'Plain', 'Rt') for raw in inputs for off in (0, 1)]
+    zres = run_impl(os.path.join(VERIF, 'harness', 'impl_pkt.py'), dict(header=decl.HEADER_PY, blocks=[dict(name='cb', src=src)], modname='c03z', cases=zcases))
+    ref_i = all_combos.index((False, False, False, False))
+    per = len(inputs) * 2 * 4
+    dist['callback_keyword_cases'] = len(zcases)
+
+    def zview(o):
+        if 'ok' in o:
+            return json.dumps([[n.rstrip('0123456789') if isinstance(n, str) else n, v] for n, v in o['ok']['f']]) + str(o.get('end')) + json.dumps(o.get('packed', {}).get('ok'))
+        return 'err' if o.get('err') else 'exc:' + str(o.get('exc'))
+    for ci in range(len(all_combos)):
+        for j in range(per):
+            a, b = zres['outcomes'][ref_i * per + j], zres['outcomes'][ci * per + j]
+            va, vb = zview(a), zview(b)
+            import re as _re
+            if _re.sub(r'(In|Out|Plain|Rt)\d+', r'\1', va) != _re.sub(r'(In|Out|Plain|Rt)\d+', r'\1', vb):
+                failures.append(dict(kind='oracle', sig='callback-keywords', what='a user callable reading its keyword arguments (innermost-pkt-pos, root) gives different results under two option combinations',
+                                     options=dict(zip(('generate_for_pack', 'generate_for_unpack', 'vectorize', 'annotate'), all_combos[ci])),
+                                     case=zcases[ci * per + j], observed=b, required=a))
     return dict(evaluations=len(records), distinct_nontrivial=len({(r['group'], r['kind'], str(r.get('raw')), str(r.get('value'))) for r in records}),
                 programs=sum(len(g.table) for g in groups),
                 rule=("random class tables (biased to runs of fixed-size fields: mixed endianness, signedness, Data(n), non-struct widths) compiled "
